@@ -392,16 +392,16 @@ def run(ctx, res):
             res.sample({"scenario": case["scenario"], "N": case["cfg"]["num_distribution_draws"], "singles": r1.singles, "value": o1["value"]})
         if "err" in o1:
             continue
-        lines.append({"op": "Lens.hyper", "cfg": lc.encode_cfg(lens, case["ltype"]), "hyper": lc.encode_hyper(case["hyper"]),
+        lines.append({"op": "Lens.hyper", "cfg": lc.encode_cfg(lens, case["ltype"], case["cfg"]), "hyper": lc.encode_hyper(case["hyper"]),
                       "singles": [f2b(x) for x in r1.singles]})
         meta.append(("hyper", case, o1, r1))
         # the model's declared populations (theorem draws_from_declared) vs. the harness' statement of them and vs.
         # every request the implementation made
-        lines.append({"op": "Lens.declared", "cfg": lc.encode_cfg(lens, case["ltype"]), "hyper": lc.encode_hyper(case["hyper"])})
+        lines.append({"op": "Lens.declared", "cfg": lc.encode_cfg(lens, case["ltype"], case["cfg"]), "hyper": lc.encode_hyper(case["hyper"])})
         meta.append(("declared", case, o1, r1))
         # first single evaluation: requests (loc, scale) and routed arguments under scatter
         for si, (n0, n1, g0, g1, k0, d0) in enumerate(r1.spans[:ctx.n(3, 12)]):
-            lines.append({"op": "Lens.single", "cfg": lc.encode_cfg(lens, case["ltype"]), "hyper": lc.encode_hyper(case["hyper"]),
+            lines.append({"op": "Lens.single", "cfg": lc.encode_cfg(lens, case["ltype"], case["cfg"]), "hyper": lc.encode_hyper(case["hyper"]),
                           "ddt": f2b(case["ddt"]), "dd": f2b(case["dd"]), "dLum": f2b(case["dlum"]), "beta": lc.opt(case["beta"]),
                           "ext": {"losDraw": (f2b(r1.gev[g0]) if g1 > g0 else None),
                                   "kinScaling": [f2b(x) for x in (r1.kin[k0][1] if len(r1.kin) > k0 else [])]},
